@@ -308,6 +308,25 @@ def CloseReleases (t : List Row) : Prop :=
   closeReleasesGo false false (t.filter fun r => r.method == "DB.Close") = true
 instance (t : List Row) : Decidable (CloseReleases t) := inferInstanceAs (Decidable (_ = _))
 
+/-- actions of `DB.Close` that still work on the directory's files -/
+def fileWork : List String := ["closeFile", "fsync", "append", "appendAll", "fsRename", "fsRemove", "fsRemoveAll"]
+
+def closeOrderGo : Bool → List Row → Bool
+  | _, [] => true
+  | released, r :: rest =>
+    if r.action == "flockRelease" then closeOrderGo true rest
+    else if isRet r.action then closeOrderGo false rest
+    else if released && fileWork.contains r.action then false
+    else closeOrderGo released rest
+
+/-- In `DB.Close` the directory lock is released LAST: on no path does an action that still works on
+the files (closing / syncing a data file) follow the `flockRelease`.  Otherwise another process
+could open the directory while the closing one still has every file open (and, under mmap, is
+about to truncate them). -/
+def CloseReleasesLast (t : List Row) : Prop :=
+  closeOrderGo false (t.filter fun r => r.method == "DB.Close") = true
+instance (t : List Row) : Decidable (CloseReleasesLast t) := inferInstanceAs (Decidable (_ = _))
+
 /-- the configuration of the directory-lock model (`Model/DirLock.lean`) that the table stands for -/
 def dirLockCfg (t : List Row) : XixiKV.DirLock.Cfg :=
   { releasesOnError := decide (ReleasesOnError t), closeReleases := decide (CloseReleases t) }
